@@ -9,6 +9,9 @@ pub mod object;
 pub mod parser;
 pub mod vm;
 
+#[cfg(feature = "verif")]
+pub mod verif;
+
 use crate::{compiler::Compiler, object::Error, object::Object, parser::parse, vm::VM};
 
 /// Evaluates the given program string without retaining any state in between calls
